@@ -7,10 +7,8 @@ sys.path.insert(0, os.path.dirname(os.path.abspath(__file__)))
 import vlib
 
 
-def main():
-    t0 = time.time()
-    vlib.gen_manifest()
-    env = vlib.base_env()
+def cross_check():
+    env = vlib.base_env("list")
     r = subprocess.run(["cargo", "kani", "list", "--format", "json"], cwd=vlib.HARNESS, env=env,
                        stdout=subprocess.PIPE, stderr=subprocess.STDOUT, text=True)
     if r.returncode != 0:
@@ -28,6 +26,33 @@ def main():
         print("  only in compiler list:", sorted(compiled - disc)[:20], file=sys.stderr)
         print("  only in source scan:", sorted(disc - compiled)[:20], file=sys.stderr)
         return 1
+    print("cross-check ok:", len(compiled), "harnesses")
+    return 0
+
+
+def main():
+    t0 = time.time()
+    vlib.gen_manifest()
+    compiled = set(f"{m}::{n}" for m, ns in vlib.discover().items() for n in ns)
+    if os.environ.get("VERIF_SETUP_LIST") == "1":
+        # optional (several minutes): cross-check the source scan against the compiler's own harness list
+        rc = cross_check()
+        if rc:
+            return rc
+    # warm worker 0 (dependencies + one harness), then seed the other worker directories from it
+    import shutil
+    warm = ["cargo", "kani", "--no-default-features", "--features", "c02", "--harness", "c02::cbc_dec_b2_w2_n0", "--exact", "--only-codegen"]
+    r = subprocess.run(warm, cwd=vlib.HARNESS, env=vlib.base_env(0), stdout=subprocess.PIPE, stderr=subprocess.STDOUT, text=True)
+    if r.returncode != 0:
+        print(r.stdout[-3000:])
+        print("setup: warm build failed", file=sys.stderr)
+        return 1
+    vlib.clean_goto_outputs(0)
+    w0 = vlib.target_dir(0)
+    for w in range(1, 12):
+        d = vlib.target_dir(w)
+        if not os.path.exists(d):
+            subprocess.run(["cp", "-a", w0, d], check=True)
     print(f"setup ok: {len(compiled)} harnesses, {time.time()-t0:.0f}s")
     return 0
 
